@@ -20,6 +20,7 @@ func registerJSON() {
 	intrinsics["encoding/json.Unmarshal"] = iJSONUnmarshal
 	intrinsics["encoding/json.NewEncoder"] = iJSONNewEncoder
 	intrinsics["(*encoding/json.Encoder).Encode"] = iJSONEncode
+	intrinsics["(*encoding/json.Decoder).Token"] = iJSONToken
 	intrinsics["encoding/json.NewDecoder"] = iJSONNewDecoder
 	intrinsics["(*encoding/json.Decoder).Decode"] = iJSONDecode
 }
@@ -147,12 +148,20 @@ func (in *Interp) jsonArbitrary(data Slice, dst *Value, et types.Type, stream bo
 
 func iJSONNewEncoder(in *Interp, fn *ssa.Function, a []Value) Value {
 	p := new(Value)
-	*p = &Opaque{Kind: "json.Encoder", Fields: map[string]Value{"w": a[0]}, ID: in.newID()}
+	errCell := new(Value) // the encoder's sticky error: read by every Encode, written by the first failing Write
+	*errCell = Iface{}
+	*p = &Opaque{Kind: "json.Encoder", Fields: map[string]Value{"w": a[0], "err": errCell}, ID: in.newID()}
 	return p
 }
 
 func iJSONEncode(in *Interp, fn *ssa.Function, a []Value) Value {
 	enc := (*a[0].(*Value)).(*Opaque)
+	if errCell, ok := enc.Fields["err"].(*Value); ok {
+		in.raceNote(errCell, false)
+		if prev, isI := (*errCell).(Iface); isI && prev.T != nil {
+			return prev // an Encoder keeps returning its first write error
+		}
+	}
 	res := iJSONMarshal(in, fn, []Value{a[1]}).(Tuple)
 	w := enc.Fields["w"].(Iface)
 	if w.T == nil {
@@ -163,6 +172,10 @@ func iJSONEncode(in *Interp, fn *ssa.Function, a []Value) Value {
 		panic(abort("Encoder: writer has no Write method: " + w.T.String()))
 	}
 	r := in.call(m, []Value{w.V, res[0]}).(Tuple)
+	if errCell, ok := enc.Fields["err"].(*Value); ok && !isNilValue(r[1]) {
+		in.raceNote(errCell, true)
+		*errCell = r[1]
+	}
 	return r[1]
 }
 
@@ -182,7 +195,9 @@ func iJSONDecode(in *Interp, fn *ssa.Function, a []Value) Value {
 		if sel := in.L.prog.MethodSets.MethodSet(r.T).Lookup(nil, "VerifDoc"); sel != nil {
 			m := in.L.prog.MethodValue(sel)
 			doc := in.call(m, []Value{r.V}).(Slice)
-			return in.decodeResult(in.jsonUnmarshal(doc, tgt), doc)
+			dec.Fields["doc"] = doc
+			// Decoder.Decode reads the FIRST value of the stream and does not look at what follows it
+			return in.decodeResult(in.jsonStream(doc, tgt), doc)
 		}
 		// a *bytes.Reader over known bytes: the stream's first value is decoded, trailing bytes are not looked at
 		if types.TypeString(r.T, nil) == "*bytes.Reader" {
@@ -196,6 +211,30 @@ func iJSONDecode(in *Interp, fn *ssa.Function, a []Value) Value {
 		}
 	}
 	return in.jsonUnmarshal(Slice{Seq: &SeqObj{T: in.freshStr("body"), Len: mkBV(64, 1)}}, tgt)
+}
+
+// Token after a successful Decode: io.EOF exactly when nothing but white space follows the value that was decoded
+// (class 0); otherwise a token or a syntax error, neither of which is io.EOF.
+func iJSONToken(in *Interp, fn *ssa.Function, a []Value) Value {
+	dec := (*a[0].(*Value)).(*Opaque)
+	eof := func() Value {
+		g := in.L.prog.ImportedPackage("io").Var("EOF")
+		return Tuple{Iface{}, copyVal(*in.globalAddr(g))}
+	}
+	doc, ok := dec.Fields["doc"].(Slice)
+	if !ok {
+		panic(abort("Decoder.Token on a stream the model has not decoded from"))
+	}
+	if doc.Seq != nil && doc.Seq.Blob != nil {
+		return eof() // a document marshalled by the model is exactly one value
+	}
+	if in.branch(tEq(in.jsonClass(doc), mkInt(0))) {
+		return eof()
+	}
+	if in.branch(in.freshBool("json.trailing.bytes.are.a.token")) {
+		return Tuple{in.havoc(fn.Signature.Results().At(0).Type(), "jsontoken", 0), Iface{}}
+	}
+	return Tuple{Iface{}, in.makeErrorString(mkStr("json: invalid character after top-level value"))}
 }
 
 func (in *Interp) jsonStream(data Slice, tgt Iface) Value {
